@@ -29,6 +29,8 @@ def run_shard(ctx):
     qmgen.drive_histories(ctx, OWN, qmgen.restart_race_history(), ctx.n(600, 10000), nontrivial, salt=8)
     qmgen.drive_histories(ctx, OWN, qmgen.saturated_pool_history(), ctx.n(600, 10000), nontrivial, salt=9)
 
+    qmgen.drive_histories(ctx, OWN, qmgen.flush_busy_history(), ctx.n(600, 10000), nontrivial, salt=10)
+
 
 def replay(case):
     fails, _, _ = qm.run_history(case['cfg'], case.get('actions', []), OWN)
